@@ -66,18 +66,18 @@ theorem splitLoop_spec (sep : UInt8) (count : Nat) : ∀ (rest pre cur : Bytes) 
     have hs' : s = pre ++ cur := by rw [hs, List.append_nil]
     rw [hk, List.append_nil, splitString_succ_no_sep k cur hcur]
     simp only [List.length_nil, splitLoop]
-    rw [if_neg hlen, splitExit, if_pos hacc, hs', hts, substrFrom_end, Res.map_ok]
+    rw [if_neg hlen, splitExit, if_pos hacc, hs', hts, substrFrom_end, IxRes.map_ok]
   | c :: r, pre, cur, acc, s, i, ts, hs, hi, hts, hcur, hacc => by
     have hlen : i < s.length := by rw [hs, hi]; simp
     have hrd : rd s i = .ok c := by rw [hs]; exact rd_at' (pre ++ cur) c r _ (by rw [hi]; simp)
     simp only [List.length_cons, splitLoop]
-    rw [if_pos hlen, hrd, Res.bind_ok]
+    rw [if_pos hlen, hrd, IxRes.bind_ok]
     by_cases hc : c = sep
     · have hsub : substr s ts (i - ts) = .ok cur := by
         have : i - ts = cur.length := by omega
         rw [this, hs, hts]; exact substr_mid pre cur (c :: r)
       have hne : ¬ (c ≠ sep) := fun h => h hc
-      rw [if_neg hne, hsub, Res.bind_ok]
+      rw [if_neg hne, hsub, IxRes.bind_ok]
       obtain ⟨k, hk⟩ : ∃ k, count - acc.length = k + 1 := ⟨count - acc.length - 1, by omega⟩
       rw [hk, hc, splitString_succ_sep k cur r hcur]
       by_cases hfull : (acc ++ [cur]).length = count
@@ -141,7 +141,7 @@ theorem hexLoop_spec (hex : Bytes) : ∀ (rest pre A : Bytes) (fuel i : Nat) (bp
           .ok ((A ++ [(hexToInt a <<< 4) ||| hexToInt b]) ++ List.replicate (t.length / 2) 0) := by
         rw [hk, List.replicate_succ, hbp, wr_at]; simp
       simp only [hexLoop]
-      rw [if_pos hl, hrd1, Res.bind_ok, hrd2, Res.bind_ok, pairVal_hex a b (hhex a (by simp)), Res.bind_ok, hwr, Res.bind_ok]
+      rw [if_pos hl, hrd1, IxRes.bind_ok, hrd2, IxRes.bind_ok, pairVal_hex a b (hhex a (by simp)), IxRes.bind_ok, hwr, IxRes.bind_ok]
       have hev' : t.length % 2 = 0 := by simp at hev; omega
       have := hexLoop_spec hex t (pre ++ [a, b]) (A ++ [(hexToInt a <<< 4) ||| hexToInt b]) f (i + 2) (bp + 1)
         (by rw [hs]; simp) (by rw [hi]; simp) (by rw [hbp]; simp) hev'
@@ -178,7 +178,7 @@ theorem hexToBinary_eq (hex : Bytes) (n : Nat) (h : isValidHex hex = true) :
             ((List.replicate (n - ((c :: t).length + 1) / 2) (0 : UInt8)).length : Int) := by
           simp at hlong ⊢; omega
         have hrd : rd (c :: t) 0 = .ok c := rd_at' [] c t 0 rfl
-        rw [hrd, Res.bind_ok, hbuf, hbp, wr_at, Res.bind_ok]
+        rw [hrd, IxRes.bind_ok, hbuf, hbp, wr_at, IxRes.bind_ok]
         have := hexLoop_spec (c :: t) t [c] (List.replicate (n - ((c :: t).length + 1) / 2) 0 ++ [hexToInt c])
           (c :: t).length 1 (((List.replicate (n - ((c :: t).length + 1) / 2) (0 : UInt8)).length : Int) + 1)
           rfl rfl (by simp) hev (fun x hx => hall x (by simp [hx])) (by simp; omega)
